@@ -55,12 +55,13 @@ func NewStore(kind string) (Store, func()) {
 				panic("registry model rejected a request: " + g.Rejects[0])
 			}
 		}
-	case "file":
+	case "file", "file-cas":
 		dir := Scratch("file")
 		s, err := file.New(dir)
 		if err != nil {
 			panic(err)
 		}
+		s.ForceCAS = kind == "file-cas" // no restoring of same-content files under other names
 		return s, func() { s.Close(); os.RemoveAll(dir) }
 	}
 	panic("unknown store kind " + kind)
